@@ -4,6 +4,11 @@ NOTES = ("All checks run /venv/bin/python on bitstring imported from /repo's wor
          "known_findings.json lists genuine defects (open: reported as KNOWN-FINDING; fixed: suppress nothing).")
 NOT_APPLICABLE = {}
 CHECKS = {
+ 'C04': dict(
+    text="Exhaustive enumeration of small-heap histories on real objects: CREATE a source through every construction route (incl. string-cache hit, fromstring, bits= of a mutable, external bytearray/memoryview/array/bitarray buffers) ; DERIVE an object through each of ~55 routes (constructors, bits= / .bits, copies, slices, every operator, join, pack, Dtype.build, unpack, cut, split, stream reads, tobitarray, Array construction/slicing/copy, append/prepend/insert/overwrite/replace into another object, lsb0 variants) x 4 target classes ; optionally a second DERIVE hop ; MUTATE any mutable member of the world with each of ~35 mutations ; then re-read every other member (bin, len, hash) and re-create from the same strings. Plus pseudo-mutation: every public attribute of Bits / ConstBitStream objects is called with 15 argument tuples and the object re-read.",
+    design_ref="DESIGN.md section 4 C04",
+    note="Invariant oracle (no model): an object that was not the target of the mutation keeps its snapshot value. Behavioural verdict only; buffer identity is never consulted. Worlds of <= 4 objects, 3 contents (4, 8, 18 bits).",
+    technique="exhaustive enumeration of bounded operation histories (depth <= 5) on a small heap with an invariant checked after every history"),
  'C08': dict(
     text="Bounded exhaustive differential exploration: for every content in the bound, every class, msb0 and lsb0, an object is built through each of ~40 construction routes (text forms, bytes/bytearray/memoryview/array/bitarray/BytesIO with offset and length, iterables, string-cache hit, slices/copies of larger objects, result of mutation, files by name and handle with offset in {none,0,3,8} and a length shorter than the file) and the whole API battery (~125 non-mutating, 20 stream and 44 mutating events incl. out-of-range arguments) is executed on it; observation (value or exception class) and post-state must equal those of the canonical twin Cls(bin=...).",
     design_ref="DESIGN.md section 4 C08",
